@@ -99,7 +99,7 @@ pub fn c11(tier: Tier) -> i32 {
     rep.rule("ALL queries of the bounded grammar ([OPTIONAL] MATCH over node / 1-hop / 2-hop / variable-length patterns with labels, types, directions and property maps; WHERE over comparisons, IS [NOT] NULL, label predicates, NOT/AND/OR/XOR; optional second clause UNWIND / OPTIONAL MATCH / WITH..WHERE; RETURN [DISTINCT] of properties, labels(), type(), count(*), count/sum/min/max/collect, ORDER BY [DESC], SKIP, LIMIT) are executed on ALL graphs of the scope (<= 2 nodes with label sets and property values from the stated alphabets, <= 2 relationships over types R,S incl. self-loops, plus hand-picked 3-4 node graphs) and compared with an independent naive reference evaluator: multiset equality, ORDER BY key sequence equality, SKIP/LIMIT as slices; non-trivial = (query, graph) pairs whose reference result is non-empty");
     let full = tier == Tier::Thorough;
     let qs = queries(true);
-    let vals_quick = vec![None, Some(CV::Int(1)), Some(CV::Int(2))];
+    let vals_quick = vec![None, Some(CV::Int(1))];
     let vals_full = vec![None, Some(CV::Int(1)), Some(CV::Int(2)), Some(CV::Str("x".into()))];
     let mut graphs = if full { graphs_g2(&label_sets_full(), &vals_full, 2) } else { graphs_g2(&label_sets_quick(), &vals_quick, 1) };
     if !full {
@@ -356,5 +356,147 @@ pub fn c19(tier: Tier) -> i32 {
         }
     });
     rep.sample(json!({"base": fams[fams.len() / 2].base, "predicate": fams[fams.len() / 2].pred, "graph": graphs[graphs.len() / 2].show()}));
+    rep.finish()
+}
+
+// ---------------------------------------------------------------------------------------------
+// C15 Indexes never change query results (differential over histories x index position)
+// ---------------------------------------------------------------------------------------------
+
+pub fn c15(tier: Tier) -> i32 {
+    use crate::seq::run_history;
+    use crate::sut::{Op, Val};
+    let rep = Report::new("C15", tier);
+    rep.rule("all enabled histories up to the stated depth over {create node 1 with labels A / B / A+B and k in {1, 1.0, 'a', absent}; create node 2 (label A, k = 1 or absent); set k to 1 / 2 / 1.0; remove k; add label A / B; remove label A; delete node 1; Compact; drop+reopen}; for every position i in 0..=len the same history with CreateIndex(A,k) inserted at i; oracle: for every probe query {MATCH (n:A {k: c}), MATCH (n:A) WHERE n.k = c, the same with label B, with a following hop, and with IN} and every c in {1, 2, 1.0, 'a', true, null} the rows equal the rows of the history without any index; non-trivial = (history, position) pairs in which the index exists while a node with label A and property k exists");
+    let k1 = |v: Val| Op::SetNodeProp { e: 1, k: "k", v };
+    let mk_node = |e: u64, labels: Vec<&'static str>, k: Option<Val>| {
+        let mut ops = vec![Op::CreateNode { e, labels }, Op::SetNodeProp { e, k: "uid", v: Val::I(e as i64) }];
+        if let Some(v) = k {
+            ops.push(Op::SetNodeProp { e, k: "k", v });
+        }
+        Op::Tx(ops)
+    };
+    let mut alphabet: Vec<Op> = Vec::new();
+    for labels in [vec!["A"], vec!["B"], vec!["A", "B"]] {
+        for k in [Some(Val::I(1)), Some(Val::F(1.0)), Some(Val::S("a")), None] {
+            alphabet.push(mk_node(1, labels.clone(), k));
+        }
+    }
+    alphabet.push(mk_node(2, vec!["A"], Some(Val::I(1))));
+    alphabet.push(mk_node(2, vec!["A"], None));
+    alphabet.push(k1(Val::I(1)));
+    alphabet.push(k1(Val::I(2)));
+    alphabet.push(k1(Val::F(1.0)));
+    alphabet.push(Op::RemoveNodeProp { e: 1, k: "k" });
+    alphabet.push(Op::AddLabel { e: 1, l: "A" });
+    alphabet.push(Op::AddLabel { e: 1, l: "B" });
+    alphabet.push(Op::RemoveLabel { e: 1, l: "A" });
+    alphabet.push(Op::DeleteNode { e: 1 });
+    alphabet.push(Op::Tx(vec![Op::CreateEdge { s: 1, t: "R", d: 2 }]));
+    alphabet.push(Op::Compact);
+    alphabet.push(Op::DropOpen);
+    let probes: Vec<String> = {
+        let mut v = Vec::new();
+        for c in ["1", "2", "1.0", "'a'", "true", "null"] {
+            for l in ["A", "B"] {
+                v.push(format!("MATCH (n:{l} {{k: {c}}}) RETURN n.uid AS u"));
+                v.push(format!("MATCH (n:{l}) WHERE n.k = {c} RETURN n.uid AS u"));
+            }
+            v.push(format!("MATCH (n:A {{k: {c}}})-[:R]->(m) RETURN n.uid AS u, m.uid AS w"));
+            v.push(format!("MATCH (n:A) WHERE n.k IN [{c}, 7] RETURN n.uid AS u"));
+        }
+        v.push("MATCH (n:A) WHERE n.k > 0 RETURN n.uid AS u".into());
+        v
+    };
+    let prepared: Vec<PreparedQuery> = probes.iter().map(|q| prepare(q).expect("probe compiles")).collect();
+    let observe = |h: &[Op]| -> Result<Vec<Vec<CRow>>, String> {
+        let r = run_history(h);
+        if let Some((i, e)) = r.failed_at {
+            return Err(format!("step {i}: {e}"));
+        }
+        let sut = r.sut.as_ref().unwrap();
+        let snap = sut.db().snapshot();
+        let params = Params::new();
+        let mut out = Vec::new();
+        for p in &prepared {
+            let rows = catch(|| -> Result<Vec<CRow>, String> {
+                let mut rows = Vec::new();
+                for row in p.execute_streaming(&snap, &params) {
+                    let row = row.map_err(|e| e.to_string())?;
+                    rows.push(row.columns().iter().map(|(_, v)| canon(&snap, v)).collect());
+                }
+                rows.sort();
+                Ok(rows)
+            })
+            .unwrap_or_else(|p| Err(p))?;
+            out.push(rows);
+        }
+        Ok(out)
+    };
+    let ex = crate::seq::Explorer { rep: &rep, alphabet, node_ids: vec![1, 2], max_depth: tier.pick(3, 4), wall_cap_s: tier.pick(50.0, 3000.0), prune_violating: true };
+    ex.run(&|h: &[Op]| {
+        let mut out = crate::seq::Outcome { violations: vec![], runs: 1, steps: h.len() as u64, label: String::new(), nontrivial: false };
+        let base = match observe(h) {
+            Ok(b) => b,
+            Err(_) => {
+                out.label = "base_failed".into();
+                return out;
+            }
+        };
+        let mut labels = std::collections::BTreeSet::new();
+        for i in 0..=h.len() {
+            let mut hi = h.to_vec();
+            hi.insert(i, Op::CreateIndex { l: "A", k: "k" });
+            out.runs += 1;
+            out.steps += hi.len() as u64;
+            out.nontrivial = true;
+            match observe(&hi) {
+                Err(e) => {
+                    let class = format!("history_fails_with_index:{}", truncate(&e, 50));
+                    labels.insert(class.clone());
+                    out.violations.push(Violation { class, kinds: crate::sut::kinds(&hi), replay: json!({"engine":"seq+query","history": crate::sut::show_history(&hi)}), detail: e });
+                }
+                Ok(with) => {
+                    let mut bad = None;
+                    for (qi, (a, b)) in base.iter().zip(&with).enumerate() {
+                        if a != b {
+                            bad = Some((qi, a.clone(), b.clone()));
+                            break;
+                        }
+                    }
+                    match bad {
+                        None => {
+                            labels.insert("same".to_string());
+                        }
+                        Some((qi, a, b)) => {
+                            let class = if b.len() < a.len() { "index_hides_rows" } else if b.len() > a.len() { "index_adds_rows" } else { "index_changes_rows" };
+                            labels.insert(class.to_string());
+                            let mut kinds_v = crate::sut::kinds(&hi);
+                            kinds_v.push(format!("index_at_{}", if i == 0 { "start" } else if i == h.len() { "end" } else { "middle" }));
+                            // causal markers (what the history contains that the index code is known not to handle)
+                            let flat: Vec<&Op> = hi.iter().flat_map(|o| match o { Op::Tx(v) => v.iter().collect::<Vec<_>>(), other => vec![other] }).collect();
+                            let idx_pos = flat.iter().position(|o| matches!(o, Op::CreateIndex { .. })).unwrap_or(0);
+                            if flat[..idx_pos].iter().any(|o| matches!(o, Op::SetNodeProp { k: "k", .. })) {
+                                kinds_v.push("cause:value_written_before_index_creation".into());
+                            }
+                            if flat.iter().any(|o| matches!(o, Op::SetNodeProp { k: "k", v: Val::F(_), .. })) {
+                                kinds_v.push("cause:float_value".into());
+                            }
+                            if flat.iter().any(|o| matches!(o, Op::AddLabel { .. } | Op::RemoveLabel { .. }) || matches!(o, Op::CreateNode { labels, .. } if labels.len() > 1 || labels.first() != Some(&"A")) ) {
+                                kinds_v.push("cause:label_not_primary_or_changed".into());
+                            }
+                            if flat.iter().any(|o| matches!(o, Op::DeleteNode { .. })) {
+                                kinds_v.push("cause:node_deleted".into());
+                            }
+                            out.violations.push(Violation { class: class.to_string(), kinds: kinds_v, replay: json!({"engine":"seq+query","history": crate::sut::show_history(&hi), "query": probes[qi]}), detail: format!("{}: without index {} with index {}", probes[qi], show_rows(&a), show_rows(&b)) });
+                        }
+                    }
+                }
+            }
+        }
+        out.label = labels.into_iter().collect::<Vec<_>>().join("|");
+        out
+    });
+    rep.set("probe_queries", json!(probes.len()));
     rep.finish()
 }
